@@ -92,7 +92,12 @@ theorem full_init (p : WalParams) (crc : Bytes → Nat) (sync mem : Nat) :
     Full p crc sync { eng := { cfg := { memTableSize := mem } }, sync } 0 := by
   refine ⟨[], [], rfl, ?_, ⟨0, rfl, rfl, Nat.zero_le _⟩, rfl, Nat.le_refl _⟩
   refine ⟨rfl, ?_, ?_, ?_, Nat.le_succ _, ?_, ⟨0, ?_, Nat.zero_lt_one, fun _ => Nat.le_refl _⟩, Nat.le_refl _,
-    Nat.zero_lt_one, rfl⟩
+    Nat.zero_lt_one, rfl, ⟨0, ?_, ?_, Nat.zero_le _, Nat.zero_le _, Nat.zero_lt_one, fun _ => Nat.le_refl _⟩, ?_⟩
+  rotate_left 5
+  · simp [pcurEv, syncedOf, Good, cutList]
+  · simp [pcurEv, syncedOf, Fits]
+  · intro ev rest hsuf
+    simp at hsuf
   · intro f hf
     simp only [List.mem_singleton] at hf
     subst hf; exact Nat.le_refl _
@@ -153,6 +158,62 @@ theorem recover_prefix_proc (p : WalParams) (hp : p.WF) (crc : Bytes → Nat) (h
   intro c hev
   obtain ⟨L0, last, h1, h2, _, _, _⟩ := full_workload p hp crc sync mem ops hops hseq
   have := recover_of_evGood p hp crc hcrc sync c (L0 ++ [last]) _ h2 k ev hev
+  rw [← h1] at this
+  exact this
+
+/-- the events up to the k-th are a suffix of the (newest-first) event list, headed by the k-th event -/
+theorem eventsUpTo_spec (c : CSt) (k : Nat) (hk : 0 < k) (ev : Event) (hev : eventAt c k = some ev) :
+    ∃ rest, eventsUpTo c k = ev :: rest ∧ (ev :: rest) <:+ c.events := by
+  unfold eventAt at hev
+  obtain ⟨hlt, hget⟩ := List.getElem?_eq_some_iff.mp hev
+  have htake : c.events.reverse.take k = c.events.reverse.take (k - 1) ++ [ev] := by
+    have hk' : k = (k - 1) + 1 := by omega
+    rw [hk', List.take_succ_eq_append_getElem hlt, hget]
+    simp
+  refine ⟨(c.events.reverse.take (k - 1)).reverse, ?_, ?_⟩
+  · unfold eventsUpTo; rw [htake]; simp
+  · have hpre : c.events.reverse.take k <+: c.events.reverse := List.take_prefix _ _
+    have h2 := List.reverse_suffix.mpr hpre
+    rw [List.reverse_reverse, htake] at h2
+    simpa using h2
+
+/-- what the synced image at a good event recovers -/
+theorem recover_of_pevGood (p : WalParams) (hp : p.WF) (crc : Bytes → Nat) (hcrc : ∀ bs, crc bs < 2 ^ 32)
+    (sync : Nat) (c : CSt) (L : List (List Engine.LogEntry)) (nx : Nat) (h : Inv p crc sync c L nx)
+    (k : Nat) (hk : 0 < k) (ev : Event) (hev : eventAt c k = some ev) :
+    ∃ s, (replayDir p crc (diskSyncedAt c k)).entries = (L.flatten.filter (fun e => e.seq ≤ s)).map (asRead p) ∧
+         (replayDir p crc (diskSyncedAt c k)).isErr = false ∧
+         s ≤ ev.walNext ∧ (sync = 2 → ev.ackedSeq ≤ s) := by
+  obtain ⟨rest, hup, hsuf⟩ := eventsUpTo_spec c k hk ev hev
+  obtain ⟨s, hg, _, _, hw, _, ha⟩ := h.pevs ev rest hsuf
+  have hdisk : diskSyncedAt c k = (L.zip (syncedOf (ev :: rest))).map (fun x => (encL p crc x.1).take x.2) := by
+    unfold diskSyncedAt syncedAt
+    rw [hup, ← disk_eq p crc c.files L _ h.streams]
+  rw [hdisk, replayDir_cut p hp crc hcrc L _ h.ok]
+  refine ⟨s, ?_, by simp [DirReplay.isErr], hw, ha⟩
+  simp only
+  have hg' : cutList p crc L (syncedOf (ev :: rest)) = _ := hg
+  rw [hg', List.map_map]
+  rfl
+
+/-- C02 (power loss, the guaranteed survivor): cut the power at ANY instrumentation site k of ANY workload, in ANY sync
+    mode, and let every log file keep only what had been fsync'ed by then (the bytes flushed at the latest sync site —
+    `wal.sync.synced` in syncLocked, `wal.close.synced` in Close; files created since are empty). Replaying that image
+    yields, without error, exactly the entries of the write history numbered at most some s — whole writes only, nothing
+    reordered, duplicated or invented — and with synchronous logging s covers EVERY write acknowledged before the cut:
+    an acknowledgement is never given for a write whose record has not been synced. (Images between the synced and the
+    flushed length are prefixes of the byte stream in between: `replay_truncated` / C10.) -/
+theorem recover_prefix_power (p : WalParams) (hp : p.WF) (crc : Bytes → Nat) (hcrc : ∀ bs, crc bs < 2 ^ 32)
+    (sync mem : Nat) (ops : List WOp) (hops : ∀ o ∈ ops, WOpWF p o) (hseq : ops.length + 1 < p.maxSeq)
+    (k : Nat) (hk : 0 < k) (ev : Event) :
+    let c := runWorkload p crc sync mem ops
+    eventAt c k = some ev →
+    ∃ s, (replayDir p crc (diskSyncedAt c k)).entries = (c.eng.wal.flatten.filter (fun e => e.seq ≤ s)).map (asRead p) ∧
+         (replayDir p crc (diskSyncedAt c k)).isErr = false ∧
+         s ≤ ev.walNext ∧ (sync = 2 → ev.ackedSeq ≤ s) := by
+  intro c hev
+  obtain ⟨L0, last, h1, h2, _, _, _⟩ := full_workload p hp crc sync mem ops hops hseq
+  have := recover_of_pevGood p hp crc hcrc sync c (L0 ++ [last]) _ h2 k hk ev hev
   rw [← h1] at this
   exact this
 
